@@ -51,6 +51,7 @@ def _next(it, default=_NO_DEFAULT):
     return next(it) if default is _NO_DEFAULT else next(it, default)
 
 
+_STDLIB_CONSTS = {"html.entities.name2codepoint": dict, "html.entities.codepoint2name": dict, "html.entities.entitydefs": dict}
 _EXTERNAL_TYPES = {"numbers.Number": None, "collections.abc.Mapping": dict, "collections.OrderedDict": dict,
                    "datetime.timedelta": None}
 
@@ -1090,22 +1091,7 @@ class Folder:
                 if m is None and isinstance(selfv, Stub) and "__model_cls__" in selfv.attrs:
                     args = [self._hostify(a) for a in self._elts(x.args, e)]
                     kw = self._kwargs(x, e)
-                    if f.attr == "__init__":
-                        try:
-                            selfv.attrs["__model__"] = selfv.attrs["__model_cls__"](*[a for a in args], **{
-                                k_: v_ for k_, v_ in kw.items() if v_ is not None})
-                        except ModelError as ex:
-                            raise AnalysisError(f"constfold: {selfv.attrs['__model_cls__'].__name__}: {ex}")
-                        except TypeError as ex:
-                            raise AnalysisError(f"constfold: constructor of the modelled base class: {ex}")
-                        return None
-                    mdl = selfv.attrs.get("__model__")
-                    if mdl is None:
-                        raise AnalysisError("constfold: modelled base class used before its constructor ran")
-                    try:
-                        return getattr(mdl, f.attr)(*args, **kw)
-                    except ModelError as ex:
-                        raise AnalysisError(f"constfold: {type(mdl).__name__}.{f.attr}: {ex}")
+                    return self._model_base_call(selfv, f.attr, args, kw)
                 if m is None and isinstance(selfv, Stub) and "__dict__" in selfv.attrs \
                         and f.attr in ("__init__", "__setitem__", "__getitem__", "__contains__", "get", "pop", "update",
                                        "setdefault", "keys", "values", "items", "__len__", "__iter__", "clear", "__delitem__"):
@@ -1264,9 +1250,48 @@ class Folder:
             return self._apply(self._eval(f, e), x, e)      # the callee is itself computed
         raise AnalysisError(f"constfold: unsupported call {ast.unparse(x)[:80]}")
 
+    def _model_base_call(self, selfv, attr, args, kw):
+        """a method of a modelled third-party base class, called on the in-package object `selfv` (super().m(...) or
+        Base.m(self, ...))"""
+        if attr == "__init__":
+            try:
+                mdl = selfv.attrs["__model_cls__"](*[a for a in args], **{k_: v_ for k_, v_ in kw.items() if v_ is not None})
+            except ModelError as ex:
+                raise AnalysisError(f"constfold: {selfv.attrs['__model_cls__'].__name__}: {ex}")
+            except TypeError as ex:
+                raise AnalysisError(f"constfold: constructor of the modelled base class: {ex}")
+            selfv.attrs["__model__"] = mdl
+            if hasattr(mdl, "_fold") and hasattr(mdl, "_obj"):
+                mdl._fold, mdl._obj = self, selfv         # a model that calls back into the object's own (folded) methods
+            return None
+        mdl = selfv.attrs.get("__model__")
+        if mdl is None:
+            raise AnalysisError("constfold: modelled base class used before its constructor ran")
+        try:
+            return getattr(mdl, attr)(*args, **kw)
+        except ModelError as ex:
+            raise AnalysisError(f"constfold: {type(mdl).__name__}.{attr}: {ex}")
+        except AttributeError:
+            raise AnalysisError(f"constfold: {type(mdl).__name__}.{attr} is outside the model")
+
+    def stdlib_const(self, dotted):
+        """a module-level constant of the standard library: ONE object per evaluator session (as in one process)"""
+        cache = self.__dict__.setdefault("_stdlib_consts", {})
+        if dotted not in cache:
+            import importlib
+            mod_, _, name_ = dotted.rpartition(".")
+            cache[dotted] = _STDLIB_CONSTS[dotted](getattr(importlib.import_module(mod_), name_))
+        return cache[dotted]
+
     def _external(self, dotted, x, e):
         args = self._elts(x.args, e)
         kw = self._kwargs(x, e)
+        base_, _, meth_ = dotted.rpartition(".")
+        if base_ in _STDLIB_CONSTS and meth_ in _SAFE_METHODS.get(type(self.stdlib_const(base_)), ()):
+            return getattr(self.stdlib_const(base_), meth_)(*args, **kw)
+        if base_ in getattr(self, "external_models", {}) and args and isinstance(args[0], Stub) \
+                and "__model_cls__" in args[0].attrs:
+            return self._model_base_call(args[0], meth_, [self._hostify(a) for a in args[1:]], kw)   # Base.m(self, ...)
         model = getattr(self, "external_models", {}).get(dotted)
         if model is not None:
             try:
@@ -1329,6 +1354,12 @@ class Folder:
                 kw[k.arg] = self._eval(k.value, e)
         if isinstance(tgt, EnumClass):
             return tgt.by_value(args[0])
+        if isinstance(tgt, tuple) and len(tgt) == 2 and tgt[0] == "external" \
+                and tgt[1] in getattr(self, "external_models", {}):
+            try:
+                return self.external_models[tgt[1]](*args, **kw)      # a third-party class handed around as a value
+            except ModelError as ex:
+                raise AnalysisError(f"constfold: {tgt[1]}: {ex}")
         if isinstance(tgt, ClassRef):
             oc = getattr(self, "object_classes", ())
             if oc == "*" or tgt.cls.name in oc:
@@ -1568,6 +1599,8 @@ class _Env:
             if b.kind in ("const", "func", "class") and b.module is not self.mod:
                 return self.folder.value(b.module, b.name)
             if b.kind == "external":
+                if b.target in _STDLIB_CONSTS:
+                    return self.folder.stdlib_const(b.target)
                 return ("external", b.target)
         if name in _BUILTINS:
             return _BUILTINS[name]
